@@ -256,6 +256,8 @@ def run(ctx):
     specs = util.corpus(ctx.prop) + gen.gen_many_plants(ctx.seed, n, CFG, 'c06_')
     # start / shutdown ramp profiles; every second portfolio was set up before (same objects, other prices)
     prof = gen.gen_many_plants(ctx.seed, n // 2, dict(CFG, p_profile=1.0, freqs=['h', '2h', '30min'], T=(5, 9)), 'c06p_')
+    # a declared ramp of zero (output may not change while running)
+    prof += gen.gen_many_plants(ctx.seed, n // 4, dict(CFG, p_ramp0=1.0, p_profile=0.3), 'c06r0_')
     # profiles given in another frequency than the grid's (interpolated / averaged: Ramp.v)
     prof += gen.gen_many_plants(ctx.seed, n // 2, dict(CFG, p_profile=1.0, p_ramp_other_freq=1.0, freqs=['h', '30min', '15min'], T=(6, 10)), 'c06rf_')
     for i, sp in enumerate(prof):
